@@ -277,6 +277,23 @@ def run(db, cx):
                           "omitted and read back as the default")
     cx.floor("conditional key writes guarded by a record field", n3c, 8)
 
+    # --- R3d: no value of a previous loop iteration leaks into what is written (seeded change c19b)
+    from cfg import stale_across_iterations
+    nloops = 0
+    for rec in sorted(tos):
+        for fv in tos[rec]:
+            from cfg import loops_of
+            nloops += len(loops_of(fv))
+            leaks = stale_across_iterations(fv)
+            cx.ob("C19.3-per-element-values", "to_json(%s): every per-element value written inside a loop "
+                  "is defined in the same iteration" % rec, not leaks,
+                  "; ".join("`%s` used at %s may hold the value assigned at %s in an earlier iteration"
+                            % (v, short(u["loc"]), short(d["loc"])) for v, u, d in leaks[:3]),
+                  short(fv.loc),
+                  why="an element that does not assign the variable is written with its predecessor's "
+                      "value: the file is well-formed but describes another geometry")
+    cx.floor("loops in the geometry writers", nloops, 3)
+
     # --- R1b: paired export_*/import_* helpers (zipped surfaces ...) agree on their keys
     nh = 0
     for n_exp in db.find(r"^celeritas::detail::export_[a-z_]+$"):
